@@ -38,6 +38,28 @@ def scenarios_for(pid, devs, rng, tier, shapes):
                                 st["disclosed"] = sorted(set(st["disclosed"]) | {ci})
                                 cl = s["creds"][st["cred"]]["claims"]
                                 cl[ci] = cl[ci] + "x" if cl[ci].startswith("h:") else "n:%d" % (int(cl[ci][2:]) + 1)
+                    if dev["k"] == "eq_disc_reverse_exploit":
+                        # two credentials of 5 text claims; the equality is on claim 3; the last credential discloses claims 1 and 2,
+                        # signs another value at claim 3 and the matching one at claim 4
+                        if len(s["creds"]) < 2 or not any(x["k"] == "eq" for x in s["stmts"]):
+                            continue
+                        for k2, cr in enumerate(s["creds"]):
+                            cr["claims"] = [cr["claims"][0], f"h:a{k2}", f"h:b{k2}", "h:link", f"h:z{k2}"]
+                        s["creds"][-1]["claims"][3] = "h:Mallory"
+                        s["creds"][-1]["claims"][4] = "h:link"
+                        last = None
+                        for st in s["stmts"]:
+                            if st["k"] == "sig":
+                                st["disclosed"] = []
+                                if st["cred"] == len(s["creds"]) - 1:
+                                    st["disclosed"] = [1, 2]
+                                    last = st["id"]
+                            if st["k"] == "eq":
+                                st["refs"] = [[r[0], 3] for r in st["refs"]]
+                        s["stmts"] = [st for st in s["stmts"] if st["k"] in ("sig", "eq")]
+                        tgt = last
+                        dev["stmt"] = last
+                        dev["eq_claim"], dev["shift_claim"] = 3, 4
                     if d.get("need_disclosed", 0):
                         # make sure the target (or the signature statement a targeted predicate refers to) discloses enough claims
                         sig_tgt = tgt
